@@ -582,7 +582,8 @@ sqf::runtime::runtime::result sqf::runtime::runtime::execute(sqf::runtime::runti
                 if (dinf.has_value() && !active.empty())
                 {
                     auto next_inst = active.current_frame().peek(success);
-                    if (success && dinf.value() != (*next_inst)->diag_info())
+                    // A line step ends in front of the first instruction of another line (not of another column)
+                    if (success && (dinf->line != (*next_inst)->diag_info().line || dinf->path.physical != (*next_inst)->diag_info().path.physical))
                     {
                         break;
                     }
